@@ -143,7 +143,7 @@ def judge(ctx, owns_crash=False, frame=False, extra_owner=None):
     for stage, v in ctx.verdicts:
         j = v["j"]
         kind = j["v"]
-        mine = j.get("owner") in (ctx.pid, "*") or (extra_owner and extra_owner(j))
+        mine = j.get("owner") in (ctx.pid, "*") or bool(extra_owner and extra_owner(j, stage))
         if kind == "envelope":
             ctx.stats["envelope"] += 1
             continue
